@@ -6,7 +6,7 @@
 set -e
 BIN=$(dirname "$(rustc +nightly --print target-libdir)")/bin
 cd /verif/harness
-CARGO_NET_OFFLINE=true CARGO_TARGET_DIR=/tmp/covt RUSTFLAGS="-C instrument-coverage" cargo +nightly build --offline --quiet
+mkdir -p /tmp/covbuild; LLVM_PROFILE_FILE=/tmp/covbuild/b-%p.profraw CARGO_NET_OFFLINE=true CARGO_TARGET_DIR=/tmp/covt RUSTFLAGS="-C instrument-coverage" cargo +nightly build --offline --quiet
 rm -rf /tmp/covprof; mkdir -p /tmp/covprof /tmp/cov_evidence
 cd /verif
 export VERIF_HARNESS_EXE=/tmp/covt/debug/vharness LLVM_PROFILE_FILE=/tmp/covprof/c-%p-%8m.profraw VERIF_EVIDENCE_DIR=/tmp/cov_evidence
